@@ -53,6 +53,10 @@ func genPeriodUnits(r *kernel.Rng) (int64, string) {
 	case 1:
 		return 1, u
 	}
+	if r.Intn(12) == 0 {
+		// very long but valid periods (each below the 292-year limit of a duration; their sum may exceed it)
+		return int64(r.Range(40000, 106000)), vtypes.Day
+	}
 	return int64(r.Range(1, 90)), u
 }
 
@@ -75,6 +79,11 @@ func buildVestingWorld(r *kernel.Rng, o vestingWorldOpts) (*kernel.WorldSpec, *v
 	for i := 0; i < nt; i++ {
 		lp, lu := genPeriodUnits(r)
 		vp, vu := genPeriodUnits(r)
+		if r.Intn(8) == 0 {
+			// both periods very long: each is a valid duration, their sum is not
+			lp, lu = int64(r.Range(60000, 106000)), vtypes.Day
+			vp, vu = int64(r.Range(60000, 106000)), vtypes.Day
+		}
 		name := fmt.Sprintf("vt%d", i+1)
 		vg.VestingTypes = append(vg.VestingTypes, vtypes.GenesisVestingType{Name: name, LockupPeriod: lp, LockupPeriodUnit: lu, VestingPeriod: vp, VestingPeriodUnit: vu, Free: genFree(r)})
 		w.VestingTypes = append(w.VestingTypes, name)
@@ -241,6 +250,17 @@ func (w *vestingWorld) genCreatePool(r *kernel.Run, rng *kernel.Rng) *kernel.Tx 
 		dur = 0
 	case 3:
 		dur = time.Duration(rng.Range(1, 30)) * time.Second
+	case 4:
+		// "locked for good": valid durations whose lock end lies beyond what fits into 64-bit nanoseconds since 1970
+		// (April 2262), up to the longest duration there is
+		switch rng.Intn(4) {
+		case 0:
+			dur = time.Duration(math.MaxInt64)
+		case 1:
+			dur = -time.Duration(rng.Range(1, 3000)) * time.Second // invalid
+		default:
+			dur = time.Duration(rng.Range(100, 292)) * 365 * 24 * time.Hour
+		}
 	default:
 		dur = time.Duration(rng.Range(1, 3000)) * time.Second
 	}
@@ -249,7 +269,9 @@ func (w *vestingWorld) genCreatePool(r *kernel.Run, rng *kernel.Rng) *kernel.Tx 
 		vt = w.VestingTypes[rng.Intn(len(w.VestingTypes))]
 	}
 	msg := &vtypes.MsgCreateVestingPool{Owner: kernel.ActorBech(owner), Name: name, Amount: biasedAmount(rng, bal), Duration: dur, VestingType: vt}
-	w.LockEnds = append(w.LockEnds, r.Chain.Now.Add(dur))
+	if dur >= 0 && dur < 50*365*24*time.Hour {
+		w.LockEnds = append(w.LockEnds, r.Chain.Now.Add(dur)) // the cadence aims at these
+	}
 	return msgTx(owner, msg, w.route(rng))
 }
 
